@@ -377,13 +377,20 @@ def check_case(case, rec):
         rec.violation("query with an unbalanced grouping symbol compiles", dict(query=q))
     for q in case["soup"]:
         rec.mon("compile-or-valueerror")
+        unbalanced = any(q.count(a) != q.count(b) for a, b in ("()", "[]", "{}")) and '"' not in q
         try:
             qh = compile_q(q)
             qh.search(h)
         except ValueError:
-            pass
+            continue
         except Exception as ex:  # noqa
             rec.violation(f"arbitrary query text raised {type(ex).__name__} instead of ValueError", dict(query=q, text=case["text"]))
+            continue
+        if unbalanced:
+            # more opening than closing symbols of one kind (or the reverse), however they are strung together
+            rec.mon("unbalanced-soup-rejected")
+            rec.violation("query text with unequal numbers of opening and closing grouping symbols compiles", dict(query=q),
+                          key="double-bracket-read-as-a-term" if ("[[" in q or "]]" in q) else None)
     # batch interface
     if handlers:
         rec.mon("batch-agrees")
